@@ -1558,6 +1558,35 @@ fn compile_expr(
             let rhs_expr = compile_expr(rhs, genv, gensym, diagnostics);
 
             match resolution {
+                // `a && b` / `a || b` must not evaluate `b` when `a` decides the result. Later
+                // stages name both operands before the operator is applied, so unless the right
+                // operand is already a variable or a literal, lower to a conditional here.
+                tast::BinaryResolution::Builtin
+                    if matches!(
+                        op,
+                        common_defs::BinaryOp::And | common_defs::BinaryOp::Or
+                    ) && !matches!(
+                        rhs_expr,
+                        core::Expr::EVar { .. } | core::Expr::EPrim { .. }
+                    ) =>
+                {
+                    let is_and = matches!(op, common_defs::BinaryOp::And);
+                    let decided = core::Expr::EPrim {
+                        value: Prim::Bool { value: !is_and },
+                        ty: Ty::TBool,
+                    };
+                    let (then_branch, else_branch) = if is_and {
+                        (rhs_expr, decided)
+                    } else {
+                        (decided, rhs_expr)
+                    };
+                    core::Expr::EIf {
+                        cond: Box::new(lhs_expr),
+                        then_branch: Box::new(then_branch),
+                        else_branch: Box::new(else_branch),
+                        ty: ty.clone(),
+                    }
+                }
                 tast::BinaryResolution::Builtin => core::Expr::EBinary {
                     op: *op,
                     lhs: Box::new(lhs_expr),
